@@ -18,14 +18,16 @@ from pathlib import Path
 V = Path(__file__).resolve().parents[1]
 
 
-def intake(ids):
+def intake(ids, batch=""):
+    """batch "" -> /tmp/seedout-<ID>/seed{1,2} become <ID>-seed{1,2}; batch "B" -> /tmp/seedoutB-<ID>/seed{1,2} become <ID>-seed{3,4}"""
+    off = {"": 0, "B": 2, "C": 4}[batch]
     for pid in ids:
         for n in (1, 2):
-            src = Path(f"/tmp/seedout-{pid}/seed{n}")
+            src = Path(f"/tmp/seedout{batch}-{pid}/seed{n}")
             if not (src / "patch.diff").exists():
                 print("missing", src)
                 continue
-            dst = V / "seeded" / f"{pid}-seed{n}"
+            dst = V / "seeded" / f"{pid}-seed{n + off}"
             if dst.exists():
                 shutil.rmtree(dst)
             shutil.copytree(src, dst, ignore=shutil.ignore_patterns("*.log", "ctest*", "_b", "*.o", "bin", "__pycache__"))
@@ -80,7 +82,8 @@ def test(name, checks, tier="quick"):
 
 if __name__ == "__main__":
     if sys.argv[1] == "intake":
-        intake(sys.argv[2:])
+        b = [x[len("--batch="):] for x in sys.argv[2:] if x.startswith("--batch=")]
+        intake([x for x in sys.argv[2:] if not x.startswith("--")], b[0] if b else "")
     elif sys.argv[1] == "test":
         tier = "thorough" if "--thorough" in sys.argv else "quick"
         a = [x for x in sys.argv[2:] if not x.startswith("--")]
